@@ -345,6 +345,38 @@ def decorator_scenarios(skip):
                     want.append((type(inst).__name__, mp[ev], (1,)))
         if got != sorted(want):
             out.append(('C03', 'deliveries %r, expected %r' % (got, sorted(want)), 'decorator-delivery'))
+    # three levels: a middle class re-maps an inherited event, a further (decorated or not)
+    # subclass keeps the nearer mapping; every combination of re-mapping / adding at each level
+    for mid_map, low_events, low_map in (({'x': 'alt'}, ('y',), None), ({'x': 'alt'}, (), {'z': 'z'}),
+                                         ({'x': 'alt', 'y': 'y'}, (), {'y': 'alt'}), ({'x': 'alt'}, (), None),
+                                         ({'y': 'alt'}, ('z',), {'x': 'y'})):
+        del log[:]
+        Base = mk('Base', (), ('x',))
+        Mid = mk('Mid', (Base,), (), mid_map)
+        Low = mk('Low', (Mid,), low_events, low_map)
+        exp_mid = dict(Base.__events__)
+        exp_mid.update(mid_map)
+        exp = dict(exp_mid)
+        exp.update({e: e for e in low_events})
+        exp.update(low_map or {})
+        if dict(Base.__events__) != {'x': 'x'} or dict(Mid.__events__) != exp_mid:
+            out.append(('C03', 'decorating a subclass altered a base mapping: Base %r, Mid %r'
+                        % (dict(Base.__events__), dict(Mid.__events__)), 'decorator-alters-base'))
+            continue
+        if dict(Low.__events__) != exp:
+            out.append(('C03', 'three-level hierarchy: mapping of the lowest class %r, expected %r (nearer '
+                               'mappings override farther ones)' % (dict(Low.__events__), exp),
+                        'decorator-mapping-3-levels'))
+            continue
+        d = desper.EventDispatcher()
+        low = Low()
+        d.add_handler(low)
+        for ev in ('x', 'y', 'z'):
+            d.dispatch(ev, 1)
+        want = sorted(('Low', exp[ev], (1,)) for ev in ('x', 'y', 'z') if ev in exp)
+        if sorted(log) != want:
+            out.append(('C03', 'three-level hierarchy: deliveries %r, expected %r' % (sorted(log), want),
+                        'decorator-delivery-3-levels'))
     # several handler bases (known finding D10)
     if 'C03:multi-base-inherit' not in skip:
         del log[:]
